@@ -509,7 +509,10 @@ fn finish(
     let exhaustive = check.exhaustive_part(opts.tier);
     let mut cov = Map::new();
     cov.insert("evaluations".into(), json!(tot.evals));
+    // each worker reports at most 10^6 distinct shape signatures (memory cap), so for very long
+    // runs this is a lower bound of the true number
     cov.insert("distinct_nontrivial".into(), json!(tot.shapes.len()));
+    cov.insert("distinct_nontrivial_is_lower_bound".into(), json!(tot.shapes.len() >= 1_000_000));
     cov.insert("rule".into(), json!(check.rule()));
     cov.insert("samples".into(), Value::Array(tot.samples.clone()));
     cov.insert("cases_planned".into(), json!(plan.cases));
